@@ -1337,3 +1337,67 @@ func (g *Gen) vecMergedLackingCase() {
 	g.emit("vcounters")
 	g.st("vec.mergedlacking")
 }
+
+// freq0MergeCase: a field indexed without frequencies (every hit has frequency 0 and therefore no
+// norm), once without and once with term vectors, whose terms occur in several documents of one
+// chunk; merged alone and with a neighbour under deletions that remove an earlier hit of a term and
+// keep later ones (the merge steps over the deleted hit's record), by copying and by re-encoding.
+func (g *Gen) freq0MergeCase(after func(m string)) {
+	g.setMode()
+	mk := func(nd int, extraField bool) string {
+		b := &BatchSpec{Name: g.fresh("b")}
+		for d := 0; d < nd; d++ {
+			id := []byte(fmt.Sprintf("%s-%d", b.Name, d))
+			doc := DocSpec{ID: id, Plain: true}
+			doc.Fields = append(doc.Fields, FieldSpec{Kind: "fld", Name: "_id", Typ: 't', Stored: true, Len: 1, Val: id, Toks: []TokSpec{{Term: id, Freq: 1}}})
+			tags := []TokSpec{{Term: []byte("common"), Freq: 0}}
+			if d >= nd/2 {
+				tags = append(tags, TokSpec{Term: []byte("late"), Freq: 0})
+			}
+			if d == nd-1 {
+				tags = append(tags, TokSpec{Term: []byte("edge"), Freq: 0})
+			}
+			doc.Fields = append(doc.Fields, FieldSpec{Kind: "fld", Name: "tags", Typ: 't', Len: 1, DV: d%2 == 0, Toks: tags})
+			var tv []TokSpec
+			for _, t := range tags {
+				tv = append(tv, TokSpec{Term: t.Term, Freq: 0, Locs: []LocSpec{{Pos: d + 1, Start: d, End: d + 3}, {Pos: d + 2, Start: d + 4, End: d + 9, AP: []uint64{uint64(d)}}}})
+			}
+			doc.Fields = append(doc.Fields, FieldSpec{Kind: "fld", Name: "tagv", Typ: 't', Len: 2, Toks: tv})
+			if extraField {
+				doc.Fields = append(doc.Fields, FieldSpec{Kind: "fld", Name: "other", Typ: 't', Len: 1, Toks: []TokSpec{{Term: []byte("o"), Freq: 1}}})
+			}
+			b.Docs = append(b.Docs, doc)
+		}
+		g.emitBatch(b)
+		s := g.fresh("s")
+		g.emit("build %s %s", s, b.Name)
+		g.newBuilt(s, b)
+		return s
+	}
+	a := mk(6, false)
+	same := mk(3, false) // same field list: the merge copies bytes
+	diff := mk(3, true)  // another field list: the merge re-encodes
+	for _, c := range []struct {
+		segs  []string
+		drops string
+		n     int
+	}{
+		{[]string{a}, "0", 5}, {[]string{a}, "1,3", 4}, {[]string{a, same}, "0,2|1", 7}, {[]string{same, a}, "nil|0,4", 7},
+		{[]string{a, diff}, "0|nil", 8}, {[]string{diff, a}, "0|1,2", 6},
+	} {
+		f := g.fresh("f")
+		g.emit("merge %s segs=%s drops=%s", f, strList(c.segs), c.drops)
+		m := g.fresh("m")
+		g.emit("open %s %s", m, f)
+		u := newUniverse()
+		for _, sg := range c.segs {
+			u.union(g.univ[sg], 0)
+		}
+		g.univ[m] = u
+		g.ndocs[m] = c.n
+		g.lineage[m] = map[string]bool{m: true}
+		after(m)
+		g.emit("close %s", m)
+	}
+	g.st("merge.freq0")
+}
